@@ -126,6 +126,11 @@ def faultReply (b : Backend) (kind : String) (nice : Reply) (g : Nat) : Reply :=
   | "savefail_ok" => { out := .text, flags := [.okMark, .hash] } -- an error sentence that happens to contain "[OK]"
   | "errsuccess" => { parses := false }                    -- status="error" whose message contains "success"
   | "commitmsg" => { flags := [.wellFormed] }              -- status="success" with a failure message instead of a job
+  -- status="success", no message, a <result> without (numeric) job id: by itself the reply looks
+  -- like "job enqueued"; that there is no job shows at the poll (mkDev below)
+  | "commit_nojob" => { flags := [.msgEmpty, .wellFormed] }
+  | "commit_emptyjob" => { flags := [.msgEmpty, .wellFormed] }
+  | "commit_textjob" => { flags := [.msgEmpty, .wellFormed] }
   | _ => nice
 
 def showLike (l : String) : Bool :=
@@ -163,6 +168,11 @@ def mkDev (b : Backend) (sh : Shape) (pos : Option Nat) (kind : String) : Dev :=
       -- the genuineness mark on the LAST list reply stands for the whole retrieved configuration
       -- (that is where `setPlan` reads it): an earlier list that was not the device's spoils it
       { nice with flags := nice.flags.erase .cfgGenuine }
+    else if gc > p && b == .panos && l == "show jobs" && (ls.getD (p - 1) "") == "commit"
+        && (kind == "commit_nojob" || kind == "commit_emptyjob" || kind == "commit_textjob") then
+      -- the commit was answered with status="success" but without a (numeric) job id: that reply
+      -- is well-formed by itself; the device rejects the poll for a job that does not exist
+      { parses := false }
     else if gc > p && !http then
       (if kind == "silence" || kind == "truncated" || kind == "stall_partial" then { arr := .silent }
        else if kind == "close" then { arr := .closed } else nice)
